@@ -1210,7 +1210,7 @@ func (r *c04Run) apply(o c04Op) {
 			case b.size != l.Size:
 				r.l2("listed-incomplete", fmt.Sprintf("model=%s layer=%s problem=size manifest=%d file=%d", n.full(), l.Digest, l.Size, b.size))
 				bad = true
-			case b.sum != key:
+			case !strings.EqualFold(b.sum, key):
 				r.l2("listed-incomplete", fmt.Sprintf("model=%s layer=%s problem=hash real=%s", n.full(), l.Digest, b.sum))
 				bad = true
 			}
@@ -1707,6 +1707,11 @@ func (g *c04Gen) fileDigest(sn *c04Snap) c04Digest {
 	if g.class == 1 && g.r.Chance(1, 3) {
 		d.Dash = true
 	}
+	if g.class == 1 && g.r.Chance(1, 6) {
+		// the digest pattern accepts A-F: a client that writes the hex in upper case names ANOTHER file (seeded C04-M)
+		d.Hex = strings.ToUpper(d.Hex)
+		g.outCount("file_digest_uppercase_hex")
+	}
 	return d
 }
 
@@ -1723,6 +1728,8 @@ func (g *c04Gen) uploadOp() c04Op {
 		o.D.Hex = c04Sum(zzverif.Pick(g.r, g.pool.ggufs)) // possibly the digest of other content
 	case g.class == 1 && g.r.Chance(1, 10):
 		o.D.Dash = true
+	case g.class == 1 && g.r.Chance(1, 10):
+		o.D.Hex = strings.ToUpper(o.D.Hex)
 	}
 	return o
 }
@@ -2309,6 +2316,13 @@ func TestVerifC04(t *testing.T) {
 			{Kind: "delete", Name: c04Name{"registry.ollama.ai", "other", "base", "latest"}}, {Kind: "prune"},
 			{Kind: "create", Name: nm("library", "d"), From: &c04Name{"registry.ollama.ai", "library", "FOO", "latest"},
 				FromReg: &c04Reg{Layers: []c04RegLayer{{Media: "M", Content: g0}}, Config: c04RegLayer{Media: "C", Content: c04Config("llama", 1)}}}},
+		// a digest written in upper-case hex names another file (sha256-<UPPER>): without such a file the create fails; with
+		// one (planted by other means) the manifest records the upper-case spelling and that file is what it needs
+		{up(g0), mk(nm("library", "a"), false, g0),
+			{Kind: "create", Name: nm("library", "b"), Files: []c04Digest{{Hex: strings.ToUpper(c04Sum(g0))}}},
+			{Kind: "litter", File: "sha256-" + strings.ToUpper(c04Sum(g0)), Content: g0},
+			{Kind: "create", Name: nm("library", "b"), Files: []c04Digest{{Hex: strings.ToUpper(c04Sum(g0))}}},
+			{Kind: "delete", Name: nm("library", "a")}, {Kind: "prune"}, {Kind: "delete", Name: nm("library", "b")}, {Kind: "prune"}},
 		// every result class of every API operation once, deterministically (the coverage requirement of the check
 		// must not depend on the seed)
 		{up(g0), up(g0), {Kind: "upload", Content: g1, D: c04Digest{Hex: c04Sum(g0)}}, {Kind: "upload", Content: pool.texts[0], D: c04Digest{Hex: c04Sum(g1)}},
